@@ -891,3 +891,85 @@ fn lookup_body(nv: usize, nd: usize, nf: usize) {
 fn c08_lookup_functions() {
     shapes!(lookup_body, [(0, 0, 0), (1, 1, 1), (2, 2, 2), (1, 2, 0), (2, 0, 1)]);
 }
+
+// ------------------------------------------------------------------ lock ---
+/// Every result-returning public method called from inside an iterate_dir
+/// callback fails with LockError and changes nothing.
+#[kani::proof]
+#[kani::unwind(18)]
+fn c08_lock_reentrancy() {
+    let mut blocks: [Block; G16A_N] = core::array::from_fn(|_| Block::new());
+    {
+        // one live entry in the root directory, then the end marker
+        let r = &mut blocks[G16A_ROOT as usize].contents;
+        let name = *b"A       TXT";
+        let mut i = 0;
+        while i < 11 {
+            r[i] = name[i];
+            i += 1;
+        }
+        r[11] = 0x20;
+    }
+    let vm: VolumeManager<SymDisk<G16A_N>, Clock, 2, 2, 2> = VolumeManager::new_with_limits(SymDisk::new(0, blocks), Clock(fixed_timestamp()), 100);
+    {
+        let mut data = vm.data.borrow_mut();
+        let _ = data.open_volumes.push(VolumeInfo { raw_volume: RawVolume(Handle(1)), idx: VolumeIdx(0), volume_type: VolumeType::Fat(g16a()) });
+        let _ = data.open_dirs.push(DirectoryInfo { raw_directory: RawDirectory(Handle(2)), raw_volume: RawVolume(Handle(1)), cluster: ClusterId::ROOT_DIR });
+        let _ = data.open_files.push(idle_file_info(3, 1, 1));
+    }
+    let v = RawVolume(Handle(1));
+    let d = RawDirectory(Handle(2));
+    let f = RawFile(Handle(3));
+    let name = ShortFileName { contents: *b"B       TXT" };
+    let mut calls = 0u32;
+    let mut all_locked = true;
+    let op: u8 = kani::any();
+    let r = vm.iterate_dir(d, |_de| {
+        calls += 1;
+        let mut buf = [0u8; 2];
+        let n: usize = kani::any();
+        kani::assume(n <= 2);
+        let mut storage = [0u8; 8];
+        let locked = match op {
+            0 => matches!(vm.open_raw_volume(VolumeIdx(kani::any())), Err(Error::LockError)),
+            1 => matches!(vm.open_root_dir(v), Err(Error::LockError)),
+            2 => matches!(vm.open_dir(d, &name), Err(Error::LockError)),
+            3 => matches!(vm.close_dir(d), Err(Error::LockError)),
+            4 => matches!(vm.close_volume(v), Err(Error::LockError)),
+            5 => matches!(vm.find_directory_entry(d, &name), Err(Error::LockError)),
+            6 => matches!(vm.iterate_dir(d, |_| {}), Err(Error::LockError)),
+            7 => {
+                let mut lfn = LfnBuffer::new(&mut storage);
+                matches!(vm.iterate_dir_lfn(d, &mut lfn, |_, _| {}), Err(Error::LockError))
+            }
+            8 => matches!(vm.open_file_in_dir(d, &name, any_mode()), Err(Error::LockError)),
+            9 => matches!(vm.delete_file_in_dir(d, &name), Err(Error::LockError)),
+            10 => matches!(vm.get_root_volume_label(v), Err(Error::LockError)),
+            11 => matches!(vm.read(f, &mut buf[..n]), Err(Error::LockError)),
+            12 => matches!(vm.write(f, &buf[..n]), Err(Error::LockError)),
+            13 => matches!(vm.close_file(f), Err(Error::LockError)),
+            14 => matches!(vm.flush_file(f), Err(Error::LockError)),
+            15 => matches!(vm.file_eof(f), Err(Error::LockError)),
+            16 => matches!(vm.file_seek_from_start(f, kani::any()), Err(Error::LockError)),
+            17 => matches!(vm.file_seek_from_current(f, kani::any()), Err(Error::LockError)),
+            18 => matches!(vm.file_seek_from_end(f, kani::any()), Err(Error::LockError)),
+            19 => matches!(vm.file_length(f), Err(Error::LockError)),
+            20 => matches!(vm.file_offset(f), Err(Error::LockError)),
+            _ => matches!(vm.make_dir_in_dir(d, &name), Err(Error::LockError)),
+        };
+        if !locked {
+            all_locked = false;
+        }
+    });
+    assert!(r.is_ok(), "lock: iteration failed");
+    assert!(calls == 1, "lock: callback not invoked exactly once for the one live entry");
+    assert!(all_locked, "lock: a re-entrant call from the iteration callback did not fail with LockError");
+    let data = vm.data.borrow();
+    assert!(data.open_volumes.len() == 1 && data.open_dirs.len() == 1 && data.open_files.len() == 1, "lock: a re-entrant call changed the tables");
+    assert!(crate::blockdevice::vk_bd::dev(&data.block_cache).nwrites.get() == 0, "lock: a re-entrant call wrote to the device");
+    kani::cover!(op == 11 && n_is_zero_dummy());
+    kani::cover!(op == 21);
+}
+fn n_is_zero_dummy() -> bool {
+    true
+}
